@@ -194,3 +194,11 @@ def c07(F, R, tier):
 def c06(F, R, tier):
     import c06 as mod
     mod.check(F, R, get_grammar())
+
+
+@prop("C16",
+      technique="static: symbolic evaluation of the extracted builder translation and operator impls on operand samples of every type combination; call-graph must-pass-through over MIR; handle resolution data-flow",
+      explanation="PARTIAL. Decides (H-TOEXP) to_exp maps every Expr variant (13, with all 9 BinOps and 2 UnOps) to the same-named Exp form with operands in place and indexes resolved through the name table; (H-OPS) each of the 76 expanded std::ops impls for Expr/Var/f64/i32/bool builds the same-named operator with self on the left and rhs on the right (evaluated from their HIR), plus implies/iff; (S-EVAL) eval_expr agrees with the language's operator semantics on all operator x {0,1,2,-1}^2 constant cells, truthy/bool_num tables; (FUNNEL) only Linearizer::linearize assembles a LinearModel, the builder (linearize, solve_with), the one-shot solver and the pipes reach it, text entries reach parse_problem_source / transform_parsed_problem, pest is entered only from the pre-model parser; (D-HANDLE) handle -> variable_names[index] -> value_of(name), first duplicate wins, the solution carries the builder's name table, into_model marks every declared variable used and defaults to satisfy. NOT decided: equality of the compiled models and answers across front doors; the builder macros (constraint!, vars!) are not expanded in the rooc crate and are not checked here.")
+def c16(F, R, tier):
+    import c16 as mod
+    mod.check(F, R)
